@@ -52,7 +52,7 @@ def run_assign(name, parts, subs, previous=None, generation=1, via_wire=True):
             gen = -1
             if previous is not None and m in previous:
                 prev = [TopicPartition(t, p) for (t, p) in sorted(previous[m])]
-                gen = generation
+                gen = generation[m] if isinstance(generation, dict) else generation
             md = cls._metadata(topics, prev, gen)
         else:
             md = cls.metadata(topics)
@@ -177,3 +177,21 @@ def check_sticky(src, kind, parts, subs1, res1, subs2, res2, gone, new, tag=""):
             if src.twin:
                 ok = not ok
             src.check(ok, tag + f"sticky: partition {tp} moved between old members ({m1} -> {m2}) when {sorted(new)} joined", **info)
+
+
+def stale_rejoin(src, parts, subs, res1, tag=""):
+    """Three generations: round 1 (generation 1); round 2 without one member (generation 2); round 3 where
+    that member re-joins still reporting its generation-1 assignment while the others report theirs of
+    generation 2.  Returns (absent member, round-2 result, round-3 subscriptions, round-3 result)."""
+    ms = sorted(subs)
+    if len(ms) < 2:
+        return None
+    absent = ms[src.choice(f"{tag}absent_member", len(ms))]
+    subs2 = {m: t for m, t in subs.items() if m != absent}
+    res2 = run_assign("sticky", parts, subs2, previous={m: res1[m] for m in subs2}, generation=1)
+    prev3 = {m: res2[m] for m in subs2}
+    prev3[absent] = res1[absent]
+    gens = {m: 2 for m in subs2}
+    gens[absent] = 1
+    res3 = run_assign("sticky", parts, subs, previous=prev3, generation=gens)
+    return absent, subs2, res2, res3
